@@ -122,6 +122,10 @@ def build(ctx, case, db):
             blocks += "SOLID_SOLUTIONS 1\n CaSrCO3\n -comp1 Calcite %s\n -comp2 Strontianite %s\n -Gugg_nondim %s %s\n" % (
                 f(gens.loguni(r, 1e-3, 0.1)), f(gens.loguni(r, 1e-4, 0.01)), f(round(r.uniform(0.5, 1.8), 2)), f(round(r.uniform(-0.3, 0.3), 2)))
         info["ss"] = (ss, comps)
+        if ss.startswith("ideal") and r.random() < 0.5:
+            # history: the same instance has just run a non-ideal solid solution of the same end members (whatever is cached per phase must not leak into the ideal one)
+            info["warm"] = ("SOLUTION 99\n temp 25\n pH 8\n Ca 2\n Sr 0.5\n Ba 0.1\n C(4) 3\n S(6) 1\n Na 1\n Cl 1 charge\nSOLID_SOLUTIONS 99\n WarmSS\n -comp1 %s 0.01\n -comp2 %s 0.002\n -Gugg_nondim %s %s\nEND\n"
+                            % (comps[0], comps[1], f(round(r.uniform(1.5, 3.5), 2)), f(round(r.uniform(-1.8, 0.5), 2))))
         # components of a solid solution must not also be pure phases of the assemblage
         blocks = "\n".join(l for l in blocks.split("\n") if not (l.startswith(" ") and l.split()[0] in comps and "EQUILIBRIUM" not in l and l.split()[0] in [m[0] for m in mins] and "-comp" not in l)) + "\n"
         info["mins"] = [m for m in mins if m[0] not in comps]
@@ -199,12 +203,14 @@ def run_case(ctx, case):
     s = core.Script()
     s.raw("new a")
     s.raw("loaddb a " + os.path.join(ctx.db, case["db"]))
+    if info.get("warm"):
+        s.run("a", info["warm"])
     s.run("a", text)
     s.raw("snap a se")
     run = core.run_vdrive(ctx.bin("opt"), s.bytes(), cwd, timeout=120)
     if core.process_failure(run):
         return Result(INCONCLUSIVE, reason="process failure")
-    rr, sn = core.rets(run, "run"), core.rets(run, "snap")
+    rr, sn = core.rets(run, "run")[-1:], core.rets(run, "snap")
     if not rr or rr[0].get("r") != 0 or not sn or not sn[0]["selout"]:
         et = (sn[0]["error"].get("text", "") if sn else "").strip().split("\n")[0]
         return Result(INCONCLUSIVE, reason="run reports errors: " + " ".join(et.split())[:45])
